@@ -50,9 +50,11 @@ FEATS = ["deform", "area_um", "userdef1", "fl1_max", "frame", "fl1_npeaks"]
 INT_FEATS = ("fl1_max", "frame", "fl1_npeaks")
 RAW_DTYPES = [None, "int32", "int64", "uint16"]
 RAW_CHUNKS = [None, 3, 5, 7, 2]
+ATTRS = ["min", "max", "mean"]
 MODES = ["append", "replace", "reset"]
 FINDING_MEAN = "C20-mean-nan-weight"
 FINDING_BASIN = "C20-mapped-basin-summaries"
+FINDING_REPLACE = "C20-two-writers-replace-same-size"
 RTOL = 1e-9
 
 
@@ -61,13 +63,38 @@ def _np():
     return numpy
 
 
-def dec_vals(np, vals, feat):
+def op_parts(o):
+    """(tag, a, data, inst, keep): ops are [tag, a, data] with the optional
+    writer instance number and "keep the other writers alive" flag"""
+    return (o[0], o[1], o[2], o[3] if len(o) > 3 else 0,
+            o[4] if len(o) > 4 else 0)
+
+
+def forced_code(feat):
+    return {"fl1_max": 1, "fl1_npeaks": 1, "frame": 2}.get(feat, 0)
+
+
+def integral(data):
+    return all(t == 0 and k % 8 == 0 for t, k in data)
+
+
+def raw_dtype_code(feat, a):
+    name = RAW_DTYPES[a % 4]
+    if name is None:
+        return forced_code(feat)       # native: float64 / uint32 / uint64
+    return {"int64": 3, "int32": 4, "uint16": 5}[name]
+
+
+def dec_vals(np, vals, feat, isint=0):
     out = []
     for t, k in vals:
         out.append([k / 8, np.nan, np.inf, -np.inf][t] if t else k / 8)
     arr = np.array(out, dtype=np.float64)
-    if feat in INT_FEATS:
-        arr = arr.astype(np.uint64 if feat == "frame" else np.uint32)
+    if feat in INT_FEATS and integral(vals) and all(k >= 0 for _, k in vals):
+        arr = np.array([k // 8 for _, k in vals],
+                       dtype=np.uint64 if feat == "frame" else np.uint32)
+    elif isint and integral(vals):
+        arr = np.array([k // 8 for _, k in vals], dtype=np.int64)
     return arr
 
 
@@ -87,9 +114,30 @@ def gen_batch(rng, n, feat, style):
                         [0, rng.randint(-80, 4000)])
         return vals
     for _ in range(n):
+        if feat in INT_FEATS and style == "fract":
+            # what an unsigned integer dataset cannot hold
+            r = rng.random()
+            # (float -> uint64 of NaN/inf/negative values is platform
+            # dependent in HDF5: only fractions for the uint64 feature)
+            if feat == "frame":
+                vals.append([0, rng.randint(0, 200)])
+            else:
+                vals.append([1, 0] if r < 0.15 else [rng.choice([2, 3]), 0]
+                            if r < 0.22 else [0, rng.randint(-40, 200)])
+            continue
         if feat in INT_FEATS:
+            top = 2 ** 32 - 1 if feat != "frame" else 2 ** 52
             vals.append([0, 8 * rng.choice([rng.randint(0, 5000),
-                                            rng.randint(0, 6)])])
+                                            rng.randint(0, 6),
+                                            rng.randint(0, 6),
+                                            top - rng.randint(0, 3)])])
+            continue
+        if style == "big":
+            # not representable in float32, large and tiny magnitudes
+            vals.append([0, rng.choice([2 ** 27 + rng.randint(1, 7),
+                                        -2 ** 40 + rng.randint(1, 99),
+                                        rng.randint(1, 9),
+                                        2 ** 45 + 8 * rng.randint(0, 9) + 1])])
             continue
         r = rng.random()
         if style == "allnan" or r < {"clean": 0, "some": 0.25, "many": 0.7,
@@ -124,6 +172,9 @@ def gen_child_case(rng):
     n = rng.choice([1, 2, 3, 5, 8, 13])
     vals = gen_batch(rng, n, "deform", rng.choice(["some", "many", "inf",
                                                    "clean"]))
+    # the child's feature: stored in the parent's file, or a temporary
+    # feature of the parent (a plain ndarray that can be set again)
+    temp = rng.random() < 0.5
     hops = []
     for _ in range(rng.randint(2, 12)):
         r = rng.random()
@@ -131,12 +182,18 @@ def gen_child_case(rng):
             f = [int(rng.random() < 0.6) for _ in range(n)]
             f[rng.randrange(n)] = 1     # a child without events has no summaries
             hops.append([0, f])
-        elif r < 0.55:
+        elif r < 0.5:
             hops.append([1, []])
+        elif r < 0.6:
+            hops.append([3, []])        # read the child's data
+        elif temp and r < 0.75:
+            # the parent's feature data change (temporary feature set again)
+            nv = gen_batch(rng, n, "deform", rng.choice(["some", "clean"]))
+            hops.append([4, [x for tk in nv for x in tk]])
         else:
             hops.append([2, [rng.randint(0, 2)]])
     hops += [[1, []], [2, [0]], [2, [1]], [2, [2]]]
-    return dict(vals=vals, hops=hops)
+    return dict(vals=vals, hops=hops, temp=temp)
 
 
 def run_child_impl(case, scratch):
@@ -154,12 +211,26 @@ def run_child_impl(case, scratch):
         with RTDCWriter(path, mode="reset") as hw:
             hw.store_metadata(gen.base_meta())
             hw.store_feature("deform", arr)
+        feat = "deform"
         with dclab.new_dataset(path) as ds:
+            if case.get("temp"):
+                feat = "c20tmp"
+                try:
+                    dclab.register_temporary_feature(feat, is_scalar=True)
+                except Exception:
+                    pass
+                dclab.set_temporary_feature(ds, feat, arr.copy())
             ch = dclab.new_dataset(ds)
             changed = False
             filt = np.ones(len(arr), dtype=bool)
             for tag, p in case["hops"]:
-                if tag == 0:
+                if tag == 3:
+                    np.asarray(ch[feat][:])
+                elif tag == 4:
+                    arr = dec_vals(np, list(zip(p[0::2], p[1::2])), "deform")
+                    dclab.set_temporary_feature(ds, feat, arr.copy())
+                    changed = True
+                elif tag == 0:
                     filt = np.array(p, dtype=bool)
                     ds.filter.manual[:] = filt
                     ds.apply_filter()
@@ -173,7 +244,7 @@ def run_child_impl(case, scratch):
                         import warnings
                         with warnings.catch_warnings():
                             warnings.simplefilter("ignore")
-                            val = float(getattr(ch["deform"], name)())
+                            val = float(getattr(ch[feat], name)())
                     out.append((not changed, p[0], val))
                     if not changed:
                         sel = arr[filt]
@@ -277,7 +348,7 @@ def gen_basin_case(rng):
         ops.append(3)     # the data are read only after the summaries
     ops.append(rng.randint(0, 2))
     return dict(feat=feat, vals=vals, bm=bm, bops=ops, kind=kind,
-                refetch=rng.random() < 0.3)
+                refetch=rng.random() < 0.3, internal=rng.random() < 0.35)
 
 
 def run_basin_impl(case, scratch):
@@ -302,7 +373,13 @@ def run_basin_impl(case, scratch):
         with RTDCWriter(ref, mode="reset") as hw:
             hw.store_metadata(gen.base_meta(with_fl=True, run_id="c20-rid"))
             hw.store_feature("userdef0", np.arange(len(bm), dtype=float))
-            hw.store_basin("src", "file", "hdf5", [src], basin_map=bm)
+            if case.get("internal"):
+                # the basin's events live in this file (group basin_events)
+                hw.store_basin("int", "internal", "h5dataset",
+                               ["basin_events"], basin_feats=[feat],
+                               basin_map=bm, internal_data={feat: arr})
+            else:
+                hw.store_basin("src", "file", "hdf5", [src], basin_map=bm)
         sel = np.asarray(arr, dtype=np.float64)[case["bm"]]
         with dclab.new_dataset(ref) as ds, warnings.catch_warnings():
             warnings.simplefilter("ignore")
@@ -384,7 +461,11 @@ def gen_raw_case(rng):
     # explicit small HDF5 chunks: the dataset spans several chunks, the last
     # one usually partial
     dt += 4 * rng.choice([0, 1, 1, 2, 3, 4])
-    ops = [[4, dt, gen_batch(rng, n, feat, style)]]
+    batch = gen_batch(rng, n, feat, style)
+    if RAW_DTYPES[dt % 4]:
+        # a narrower integer type: keep the values inside its range
+        batch = [[0, 8 * ((k // 8) % 5000)] for _, k in batch]
+    ops = [[4, dt, batch]]
     r = rng.random()
     if r < 0.25:
         pass          # read as written: no stored summaries at all
@@ -413,7 +494,14 @@ def gen_case(rng, thorough=False):
     ops = []
     nsess = rng.choice([1, 1, 2, 2, 3])
     style0 = rng.choice(["clean", "some", "some", "many", "many", "inf",
-                         "uneven"])
+                         "uneven", "big", "fract" if feat in INT_FEATS
+                         else "some"])
+    # a float feature whose first array is integer typed (dataset int64)
+    int_first = feat not in INT_FEATS and rng.random() < 0.08
+    # writer with Zstd level 5: rtdc_copy then copies the dataset as it is
+    # (it stays resizable) and later sessions may append to the copy
+    zstd5 = rng.random() < 0.25
+    inst = 0
     first = True
     for si in range(nsess):
         copied = False
@@ -429,10 +517,19 @@ def gen_case(rng, thorough=False):
                 copied = True
         # datasets made by rtdc_copy cannot be resized: no append after a copy
         mode = rng.choice([2, 0]) if first else rng.choice(
-            [1, 2] if copied else [0, 0, 0, 1, 2])
-        ops.append([0, mode, []])
+            [1, 2] if (copied and not zstd5) else [0, 0, 0, 1, 2])
+        inst += 1
+        ops.append([0, mode, [], inst])
+        live = [inst]
         nb = 1 if (mode == 1 and not first) else rng.choice([1, 2, 2, 3, 4, 6])
         for bi in range(nb):
+            if rng.random() < 0.2 and len(live) < 3:
+                # another writer on the same h5py.File; all stay alive and
+                # write in any interleaving
+                inst += 1
+                ops.append([0, 1 if (copied and not zstd5) else
+                            rng.choice([0, 0, 1]), [], inst, 1])
+                live.append(inst)
             style = style0
             r = rng.random()
             if r < 0.22:
@@ -441,7 +538,17 @@ def gen_case(rng, thorough=False):
                 style = "clean"
             n = rng.choice([1, 1, 2, 3, 4, 7, 12, 13] +
                            ([40] if thorough else []))
-            ops.append([1, 0, gen_batch(rng, n, feat, style)])
+            batch = gen_batch(rng, n, feat, style)
+            isint = 0
+            if int_first and first and bi == 0:
+                batch = [[0, 8 * rng.randint(-3, 90)] for _ in batch]
+                isint = 1
+            elif int_first:
+                # NaN/inf become +-2^63 in the int64 dataset: float64 sums
+                # of such values are meaningless (also numpy's), leave them out
+                batch = [[0, k] if t == 0 else [0, rng.randint(-80, 400)]
+                         for t, k in batch]
+            ops.append([1, isint, batch, rng.choice(live)])
         first = False
     # the end of the history: as written, copied, with summaries removed, or
     # with summaries removed and then completed by one or two copies
@@ -456,6 +563,7 @@ def gen_case(rng, thorough=False):
         ops += [[3, rng.randint(1, 7), []], [2, 0, []], [2, 0, []]]
     # writer.CHUNK_SIZE_BYTES=80: datasets of the writer get chunks of 10
     return dict(feat=feat, ops=ops, csb=rng.choice([None, 80, 80]),
+                zstd5=zstd5,
                 read_first=rng.random() < 0.2,
                 qorder=rng.sample([0, 1, 2], 3))
 
@@ -534,37 +642,59 @@ def run_impl(case, scratch, keep=False):
     tag = "%d-%d" % (os.getpid(), id(case) % 100000)
     path = os.path.join(scratch, "c20-%s.rtdc" % tag)
     ncopy = 0
-    hw = None
     nwrites = 0
     hasnan = False
+    info_live = 1
     paths = [path]
     from dclab.rtdc_dataset import writer as W
     old_csb = W.CHUNK_SIZE_BYTES
     if case.get("csb"):
         # scalar datasets of the writer then have chunks of 10 events
         W.CHUNK_SIZE_BYTES = case["csb"]
+    writers = {}        # instance number -> live RTDCWriter
+    order = []
+
+    def close_all():
+        # the instances sharing the file first, its owner last
+        for k in sorted(order, key=lambda k: writers[k].owns_path):
+            writers[k].__exit__(None, None, None)
+        writers.clear()
+        del order[:]
+    wkw = {}
+    if case.get("zstd5"):
+        import hdf5plugin
+        wkw["compression_kwargs"] = hdf5plugin.Zstd(clevel=5)
     try:
-        for tg, a, data in case["ops"]:
+        for o in case["ops"]:
+            tg, a, data, inst, keepalive = op_parts(o)
             if tg == 0:
-                if hw is not None:
-                    hw.__exit__(None, None, None)
-                hw = RTDCWriter(path, mode=MODES[a])
-                if a == 2 or not os.path.getsize(path) or \
-                        "setup:software version" not in hw.h5file.attrs:
-                    hw.store_metadata(gen.base_meta(with_fl=True, run_id="c20-rid"))
+                if writers and keepalive and a != 2:
+                    # a second writer on the h5py.File of the first
+                    owner = [w for w in writers.values() if w.owns_path][0]
+                    w = RTDCWriter(owner.h5file, mode=MODES[a], **wkw)
+                    info_live = max(info_live, len(writers) + 1)
+                else:
+                    close_all()
+                    w = RTDCWriter(path, mode=MODES[a], **wkw)
+                    if a == 2 or not os.path.getsize(path) or \
+                            "setup:software version" not in w.h5file.attrs:
+                        w.store_metadata(gen.base_meta(with_fl=True,
+                                                       run_id="c20-rid"))
+                if inst in writers:
+                    raise RuntimeError("instance number used twice")
+                writers[inst] = w
+                order.append(inst)
             elif tg == 1:
-                arr = dec_vals(np, data, feat)
+                arr = dec_vals(np, data, feat, a)
                 hasnan = hasnan or any(t == 1 for t, _ in data)
                 nwrites += 1
                 try:
-                    hw.store_feature(feat, arr)
+                    writers[inst].store_feature(feat, arr)
                 except ValueError:
                     if len(arr):
                         raise
             elif tg == 4:
-                if hw is not None:
-                    hw.__exit__(None, None, None)
-                    hw = None
+                close_all()
                 arr = dec_vals(np, data, feat)
                 if RAW_DTYPES[a % 4]:
                     arr = arr.astype(RAW_DTYPES[a % 4])
@@ -578,9 +708,7 @@ def run_impl(case, scratch, keep=False):
                     hwr.store_metadata(gen.base_meta(with_fl=True,
                                                      run_id="c20-rid"))
             else:
-                if hw is not None:
-                    hw.__exit__(None, None, None)
-                    hw = None
+                close_all()
                 if not os.path.exists(path):
                     continue
                 if tg == 2:
@@ -595,16 +723,18 @@ def run_impl(case, scratch, keep=False):
                     with h5py.File(path, "a") as h5:
                         if "events" in h5 and feat in h5["events"]:
                             at = h5["events"][feat].attrs
-                            for bit, name in enumerate(["min", "max", "mean"]):
+                            for bit, name in enumerate(ATTRS):
                                 if a >> bit & 1 and name in at:
                                     del at[name]
-        if hw is not None:
-            hw.__exit__(None, None, None)
-            hw = None
+        close_all()
         obs = None
         fails = []
+        attrs = None
         with h5py.File(path, "r") as h5:
             present = "events" in h5 and feat in h5["events"]
+            if present:
+                at = h5["events"][feat].attrs
+                attrs = [None if k not in at else float(at[k]) for k in ATTRS]
         if present:
             with dclab.new_dataset(path) as ds:
                 fobj = ds[feat]
@@ -628,7 +758,13 @@ def run_impl(case, scratch, keep=False):
                 fails += [("child-refresh-" + k, d) for k, d in
                           check_summaries(np, ch[feat],
                                           "hierarchy child after refresh")]
-                obs = dict(n=n, rep=rep, child=crep)
+                # a child of the child
+                ch.filter.manual[:] = (np.arange(len(ch)) % 2 == 0)
+                ch.apply_filter()
+                ch2 = dclab.new_dataset(ch)
+                fails += [("grandchild-" + k, d) for k, d in check_summaries(
+                    np, ch2[feat], "child of a hierarchy child")]
+                obs = dict(n=n, rep=rep, child=crep, attrs=attrs)
             # the same feature seen through a mapped basin
             bm = [i for i in range(n) if i % 3 != 1]
             ref = os.path.join(scratch, "c20-%s-ref.rtdc" % tag)
@@ -651,12 +787,13 @@ def run_impl(case, scratch, keep=False):
                     obs["basin"] = None
                     fails.append(("basin-missing", "mapped basin feature "
                                   "(%s): %s" % (type(fb).__name__, e)))
-        return obs, fails, dict(nwrites=nwrites, hasnan=hasnan)
+        return obs, fails, dict(nwrites=nwrites, hasnan=hasnan,
+                                live=info_live)
     finally:
         W.CHUNK_SIZE_BYTES = old_csb
-        if hw is not None:
+        for w in list(writers.values()) if "writers" in dir() else []:
             try:
-                hw.close()
+                w.close()
             except Exception:
                 pass
         if not keep:
@@ -677,10 +814,34 @@ def compare(np, model, obs):
     if model[0] != obs["n"]:
         return "length %s vs %s" % (model[0], obs["n"])
     pos = 1
-    parts = [("file", obs["rep"]), ("child", obs["child"])]
+    parts = [("file", obs["rep"]), ("attrs", obs.get("attrs")),
+             ("child", obs["child"])]
     if obs.get("basin") is not None:
         parts.append(("mapped basin", obs["basin"]))
     for label, vals in parts:
+        if label == "attrs":
+            # the stored attributes themselves, read with plain h5py
+            for k, name in enumerate(ATTRS):
+                have = model[pos]
+                pos += 1
+                width = 0 if not have else (3 if name == "mean" else 2)
+                enc = model[pos:pos + width]
+                pos += width
+                got = vals[k] if vals else None
+                if bool(have) != (got is not None):
+                    return "attribute %s: model %s, file %r" % (
+                        name, "present" if have else "absent", got)
+                if not have:
+                    continue
+                if name == "mean":
+                    t, pp, q = enc
+                    ok = close_to(np, pp / q / 8, got) if t == 0 and q else (
+                        t != 0 and enc_f(np, got)[0] == t)
+                else:
+                    ok = enc == enc_f(np, got)
+                if not ok:
+                    return "attribute %s: model %s, file %r" % (name, enc, got)
+            continue
         for name in ("min", "max"):
             want = model[pos:pos + 2]
             got = enc_f(np, vals[0 if name == "min" else 1])
@@ -704,21 +865,58 @@ def compare(np, model, obs):
 
 
 def render(case):
-    return common.clist(
-        ["(%d, %d, %s)" % (t, a, common.clist(
-            ["(%d, %s)" % (x, common.zlit(k)) for x, k in data]))
-         for t, a, data in case["ops"]])
+    feat = case["feat"]
+    out = []
+    for o in case["ops"]:
+        t, a, data, inst, _ = op_parts(o)
+        if t == 0:
+            x, y = inst, a
+        elif t == 1:
+            arr_int = (feat in INT_FEATS and integral(data) and
+                       all(k >= 0 for _, k in data)) or (a and integral(data))
+            x, y = inst, int(bool(arr_int))
+        elif t == 4:
+            x, y = raw_dtype_code(feat, a), 0
+        else:
+            x, y = a, 0
+        out.append("(%d, %d, %d, %s)" % (t, x, y, common.clist(
+            ["(%d, %s)" % (v, common.zlit(k)) for v, k in data])))
+    return "(%d, %s)" % (forced_code(feat), common.clist(out))
 
 
 HEADER = ("From Coq Require Import ZArith List Bool.\nImport ListNotations.\n"
           "From Verif Require Import Model.C20.\n")
 
 
+def replace_guard_violated(case):
+    """mirrors Model/C20.v:hist_ok: a writer in replace mode writes while a
+    live writer that is not in replace mode holds a count for the dataset"""
+    insts = {}          # instance -> [mode, has count]
+    for o in case["ops"]:
+        t, a, data, inst, keepalive = op_parts(o)
+        if t == 0:
+            if a == 2 or not keepalive:
+                insts = {}      # the harness closes the other writers
+            insts[inst] = [a, False]
+        elif t == 1:
+            mode = insts.get(inst, [0, False])[0]
+            if mode == 1 and any(m != 1 and has for k, (m, has) in
+                                 insts.items()):
+                return True
+            if data:
+                insts.setdefault(inst, [0, False])[1] = True
+        else:
+            insts = {}
+    return False
+
+
 def classify(case, key):
-    """the repaired defect: the running mean was weighted with the array
-    sizes instead of the number of non-NaN values"""
+    if key.endswith("mean") and "ops" in case and replace_guard_violated(case):
+        # the listed finding: per-writer count validated by the size only
+        return FINDING_REPLACE
     if key in ("mean",) and any(t == 1 and any(x == 1 for x, _ in data)
-                                for t, _, data in case["ops"]):
+                                for t, _, data in (o[:3] for o in case["ops"])):
+        # repaired (0e55a66): running mean weighted with the array sizes
         return FINDING_MEAN
     if key == "basin-missing":
         return FINDING_BASIN
@@ -745,7 +943,7 @@ def _work(args):
         return run_impl(case, scratch)
     except BaseException as e:
         return None, [("harness", "run_impl crashed: %r" % (e,))], dict(
-            nwrites=0, hasnan=False)
+            nwrites=0, hasnan=False, live=0)
 
 
 def run(run):
@@ -764,7 +962,7 @@ def run(run):
     for c, (obs, fails, info) in zip(cases, results):
         run.record_case(c, info["nwrites"] >= 2 or info["hasnan"])
         run.count("feat:" + c["feat"])
-        tags = [t for t, _, _ in c["ops"]]
+        tags = [o[0] for o in c["ops"]]
         if c["feat"] in INT_FEATS and any(
                 tags[i] in (3, 4) and 2 in tags[i + 1:]
                 for i in range(len(tags))):
@@ -774,7 +972,11 @@ def run(run):
         if obs and "basin_type" in obs:
             run.count("basin:" + obs["basin_type"])
         run.count("writes:%s" % min(info["nwrites"], 6))
-        for t, a, data in c["ops"]:
+        if info.get("live", 1) > 1:
+            run.count("two-or-more-live-writers")
+        if c.get("zstd5"):
+            run.count("zstd5-source")
+        for t, a, data in (o[:3] for o in c["ops"]):
             run.count(["op:open:" + MODES[a % 3], "op:write", "op:copy",
                        "op:drop-attrs", "op:raw-h5py"][t] if t
                       else "op:open:" + MODES[a])
@@ -800,6 +1002,8 @@ def run(run):
     for c, m, (out, fails) in zip(ccases, cmodel, cres):
         run.record_case(c, any(t == 1 for t, _ in c["hops"][:-4]))
         run.count("child-history")
+        run.count("child-parent-data-changes", sum(
+            1 for t, _ in c["hops"] if t == 4))
         run.count("child-queries-fresh", sum(1 for f, _, _ in out if f))
         run.count("child-queries-stale", sum(1 for f, _, _ in out if not f))
         for key, desc in fails:
@@ -821,6 +1025,7 @@ def run(run):
     for c, m, (out, fails) in zip(bcases, bmodel, bres):
         run.record_case(c, c["bm"] != list(range(len(c["vals"]))))
         run.count("basin-map:" + str(c.get("kind")))
+        run.count("basin:internal" if c.get("internal") else "basin:file")
         k = c["bops"].index(3) if 3 in c["bops"] else len(c["bops"])
         run.count("basin-queries-before-read", sum(
             1 for o in c["bops"][:k] if o != 3))
